@@ -24,7 +24,7 @@ def Inv (mm : MM) (s : St) : Prop := Sym mm s ∧ Card mm s ∧ Own mm s ∧ Res
 
 /-- C03: every stored value conforms to the declared type -/
 def Typed (mm : MM) (s : St) : Prop :=
-  (∀ x f y, y ∈ s.rs x f → y < s.nObj ∧ mm.sub (s.cls y) (mm.feat f).tcls = true) ∧
+  (∀ x f y, y ∈ s.rs x f → (x < s.nObj ∧ f < mm.nFeat) ∧ y < s.nObj ∧ mm.sub (s.cls y) (mm.feat f).tcls = true) ∧
   (∀ x f v, v ∈ s.as x f → (mm.feat f).isRef = false → conformsDt (mm.feat f).tdt v = true ∨ v = .none)
 
 /-- everything that changes is smaller: slots lose elements, back-pointers are cleared or kept -/
